@@ -97,6 +97,8 @@ class Observer:
                     res[name] = {"k": "l", "to": os.readlink(p)}
                 elif not os.listdir(p):
                     res[name] = {"k": "d"}
+                else:
+                    res[name] = {"k": "D"}
         return res
 
     # ---- content
